@@ -508,10 +508,13 @@ def diff_equiv(a, b, nbase=0, faces_as_cycles=False, skip=(), rtol=1e-6, atol_re
     return _diff(a, b, ctx)
 
 
-def diff_unchanged(a, b, nbase=0, skip=()):
-    """'The shape is as it was': 64 ulp on the geometry, rtol 1e-11 elsewhere."""
+def diff_unchanged(a, b, nbase=0, skip=(), ops=1):
+    """'The shape is as it was': 1e-12 relative on the geometry, rtol 1e-11 elsewhere,
+    per operation performed between the two snapshots (``ops``): each operation
+    that moves the shape and moves it back is allowed its last-digit rounding."""
     L = length_scale(a, b)
-    ctx = Ctx(L, 1e-11, 1e-11, False, skip)
+    ops = max(1, int(ops))
+    ctx = Ctx(L, 1e-11 * ops, 1e-11 * ops, False, skip)
     ctx.nbase = nbase
     out = _diff(a, b, ctx)
     geo = Ctx(L, 0.0, 0.0, False, ())
@@ -520,7 +523,10 @@ def diff_unchanged(a, b, nbase=0, skip=()):
         if n in a and n in b and a[n][0] == "ok" and b[n][0] == "ok":
             va, vb = a[n][1], b[n][1]
             if isinstance(va, (np.ndarray, float, int)) and isinstance(vb, (np.ndarray, float, int)):
-                tol = 64 * eps * (1.0 if n == "normal" else L)
+                # 1e-12 relative per operation (~4500 ulp): moving a shape to the origin and
+                # back goes through coxeter's centroid/volume recomputation, whose
+                # cancellation error at an offset of 10 diameters is ~1e-13 of the offset
+                tol = 1e-12 * ops * (1.0 if n == "normal" else L)
                 if n in ("centroid", "center"):
                     tol *= 64  # derived quantity
                 ok, why = _num_close(va, vb, 0.0, tol)
